@@ -374,7 +374,7 @@ def check_algebra(rng, out):
 
 def shards(tier, seed):
     specs = [{"kind": "buffer-enum", "width": w} for w in range(0, 4)]
-    n = 48 if tier == "quick" else 400
+    n = 48 if tier == "quick" else 2400
     for i in range(NSHARDS):
         specs.append({"kind": "sample", "seed": seed, "shard": i, "n": n, "tier": tier})
     return specs
